@@ -86,22 +86,23 @@ def apply_body(seq, bk, ck, capped=False):
 def impl_run(ty, form, a, b, s, bk, cap):
     """The C loop as generated for a target of type `ty` with run-time bounds of that
     type, simulated with two's complement wrap-around.
-    -> dict(seq, broke, capped, events[(cause, flag)])  flag 1: unsigned wrap,
-    2: signed overflow (undefined in C), 3: value-changing store into the target type."""
+    -> dict(seq, broke, capped, events[(cause, kind, iterations done)])  kind 1: unsigned
+    wrap, 2: signed overflow (undefined in C), 3: value-changing store into the target type."""
     ev = []
+    seq = []
     A = (ty.pw, True) if ty.pw > ty.w else (ty.w, ty.s)
     B = (ty.bw, True) if ty.bw else A
 
     def ar(at, v, cause):
         if inr(at[0], at[1], v):
             return v
-        ev.append((cause, 2 if at[1] else 1))
+        ev.append((cause, 2 if at[1] else 1, len(seq)))
         return wrap(at[0], at[1], v)
 
     def st(v, cause):
         if inr(ty.w, ty.s, v):
             return v
-        ev.append((cause, 3))
+        ev.append((cause, 3, len(seq)))
         return wrap(ty.w, ty.s, v)
 
     k = abs(s)
@@ -114,18 +115,13 @@ def impl_run(ty, form, a, b, s, bk, cap):
         if k == 1:
             b1 = b
         else:
-            if s > 0:
-                x = ar(B, b - a, "calc")
-                x = ar(B, x - 1, "calc")
-                m = ar(B, k * (x // k), "calc")
-                y = ar(B, a + m, "calc")
-                y = ar(B, y + 1, "calc")
-            else:
-                x = ar(B, a - b, "calc")
-                x = ar(B, x - 1, "calc")
-                m = ar(B, k * (x // k), "calc")
-                y = ar(B, a - m, "calc")
-                y = ar(B, y - 1, "calc")
+            sg = 1 if s > 0 else -1
+            x = ar(B, sg * (b - a), "calc")
+            x = ar(B, x - 1, "calc")
+            # signed: __Pyx_div_T (floor); unsigned: C division of the (possibly wrapped) value
+            m = ar(B, k * (x // k), "calc")
+            y = ar(B, a + sg * m, "calc")
+            y = ar(B, y + sg, "calc")
             b1 = st(y, "calc")
     special = (not ty.s) and dec
     x = b1
@@ -141,7 +137,6 @@ def impl_run(ty, form, a, b, s, bk, cap):
             return t > lim if dec else t < lim
         return t >= lim if dec else t <= lim
 
-    seq = []
     broke = capped = False
     while cond(t):
         if special:
@@ -150,7 +145,7 @@ def impl_run(ty, form, a, b, s, bk, cap):
         if len(seq) == bk:
             broke = True
             break
-        if len(seq) >= cap:
+        if len(seq) > cap:
             capped = True
             break
         if not special:
@@ -158,20 +153,338 @@ def impl_run(ty, form, a, b, s, bk, cap):
     return {"seq": seq, "broke": broke, "capped": capped, "events": ev}
 
 
+def model_row(ty, form, a, b, s, cap):
+    """What spec/RangeLoop.tla calls Run(): (n, m, ev) -- reference length, iterations of
+    the C loop before its first wrap event (or its natural end), the event [cause, kind]."""
+    r = impl_run(ty, form, a, b, s, 0, cap)
+    n = range_len(a, b, s)
+    if r["events"]:
+        c, kind, m = r["events"][0]
+        return n, m, [c, kind]
+    return n, len(r["seq"]), []
+
+
+def exposed(m, ev, bk, ck):
+    """Exposed() of the spec: the body reaches the wrap event."""
+    return bool(ev) and not (0 < bk <= m and bk != ck)
+
+
 def classify(ty, form, a, b, s, bk, ck, cap):
-    """-> (ref_obs, hazard descriptor fields).  ref_obs None when the reference itself
-    runs longer than the cap.  hazard: cause of the first wrap event ('' if none),
-    ub (signed overflow reached), dev (the wrap-around simulation deviates from the
-    reference), pred (the simulated observation)."""
+    """-> (ref_obs or None when the reference runs into the cap, descriptor fields of the hazard)
+    cause/kind of the first wrap event the body is exposed to ('' / 0 if none), dev: the
+    wrap-around simulation deviates from the reference, pred: the simulated observation."""
     rs = ref_seq(form, a, b, s)
     n_exec = bk if (0 < bk <= len(rs) and bk != ck) else len(rs)
-    ref = None if n_exec >= cap else list(apply_body(rs, bk, ck))
+    ref = None if n_exec > cap else list(apply_body(rs, bk, ck))
     eff_bk = bk if bk != ck else 0
     r = impl_run(ty, form, a, b, s, eff_bk, cap)
-    if r["capped"]:
-        pred = "E:" + CAPEXC
-    else:
-        pred = list(apply_body(r["seq"], bk, ck))
-    cause = r["events"][0][0] if r["events"] else ""
-    return ref, {"cause": cause, "ub": any(f == 2 for _, f in r["events"]),
+    pred = ("E:" + CAPEXC) if r["capped"] else list(apply_body(r["seq"], bk, ck))
+    evs = r["events"]
+    return ref, {"cause": evs[0][0] if evs else "", "kind": evs[0][1] if evs else 0,
                  "dev": ref is not None and pred != ref, "pred": pred}
+
+
+# --------------------------------------------------------------------------
+# (2) rendering: one template, two emissions ("c": .pyx for Cython, "p": plain Python)
+
+#          tag      C type            bits signed
+RTYPES = [("schar", "signed char", 8, True), ("uchar", "unsigned char", 8, False),
+          ("int", "int", 32, True), ("uint", "unsigned int", 32, False),
+          ("long", "long", 64, True), ("ssize", "Py_ssize_t", 64, True),
+          ("ulong", "unsigned long", 64, False)]
+RT = {t[0]: t for t in RTYPES}
+STEPS = (-3, -2, -1, 1, 2, 3)
+CAP8, CAPW = 300, 40
+
+
+def model_type(tag, bounds):
+    """CT of the loop that Cython generates for a target of type `tag` whose bounds are
+    typed like the target ('t') or are Python objects converted through Py_ssize_t ('o')."""
+    _, _, bits, signed = RT[tag]
+    pw = 32 if bits < 32 else bits
+    return CT(bits, signed, pw, 64 if (bounds == "o" and not (bits == 64 and signed)) else 0)
+
+
+def sname(s):
+    return ("m%d" % -s) if s < 0 else ("p%d" % s)
+
+
+def cap_of(tag):
+    return CAP8 if RT[tag][2] == 8 else CAPW
+
+
+_RANGE_TMPL = '''def %(name)s(%(args)s):
+%(decl)s    out = []
+    els = False
+    for i in %(iter)s:
+        n += 1
+        if n > %(cap)d: raise BufferError()
+        if n == ck: continue
+        out.append(i)
+        if n == bk: break
+    else:
+        els = True
+    return (out, i, els)
+'''
+
+
+def _range_fn(name, mode, ctype, args, iterexpr, cap, target):
+    """args: list of (name, kind) kind 'T' (typed like the target), 'O' (object), 'I' (C int)"""
+    if mode == "c":
+        a = ", ".join((ctype + " " + n) if k == "T" else (("int " + n) if k == "I" else n) for n, k in args)
+        if target == "c":
+            decl = "    cdef %s i = %d\n    cdef int n = 0\n" % (ctype, SENT)
+        elif target == "object":
+            decl = "    cdef object i = %d\n    cdef int n = 0\n" % SENT
+        else:   # inferred
+            decl = "    cdef int n = 0\n    i = %d\n" % SENT
+    else:
+        a = ", ".join(n for n, _ in args)
+        decl = "    i = %d\n    n = 0\n" % SENT
+    return _RANGE_TMPL % {"name": name, "args": a, "decl": decl, "iter": iterexpr, "cap": cap}
+
+
+def range_module(tag, mode):
+    """All range loops with a target of C type `tag`: constant step -3..3 x forward/reversed x
+    bounds typed like the target / Python objects; 1- and 2-argument range; run-time step."""
+    ctype = RT[tag][1]
+    cap = cap_of(tag)
+    out = ["# cython: language_level=3\n"]
+    for form in ("fwd", "rev"):
+        wrap_ = (lambda e: "reversed(%s)" % e) if form == "rev" else (lambda e: e)
+        for s in STEPS:
+            for bk, ak in (("t", "T"), ("o", "O")):
+                out.append(_range_fn("r_%s_%s_%s" % (form, sname(s), bk), mode, ctype,
+                                     [("a", ak), ("b", ak), ("bk", "I"), ("ck", "I")], wrap_("range(a, b, %d)" % s), cap, "c"))
+        out.append(_range_fn("r_%s_r2" % form, mode, ctype, [("a", "T"), ("b", "T"), ("bk", "I"), ("ck", "I")], wrap_("range(a, b)"), cap, "c"))
+        out.append(_range_fn("r_%s_r1" % form, mode, ctype, [("b", "T"), ("bk", "I"), ("ck", "I")], wrap_("range(b)"), cap, "c"))
+        # run-time step: not turned into a C loop; must behave all the same (and raise ValueError for 0)
+        out.append(_range_fn("r_%s_rs" % form, mode, ctype, [("a", "T"), ("b", "T"), ("s", "T" if RT[tag][3] else "I"), ("bk", "I"), ("ck", "I")],
+                             wrap_("range(a, b, s)"), cap, "c"))
+    return "\n".join(out)
+
+
+def const_module(triples, mode):
+    """Loops whose range arguments are literals: object / inferred / int / unsigned int targets."""
+    out = ["# cython: language_level=3\n"]
+    for idx, (a, b, s) in enumerate(triples):
+        for form in ("fwd", "rev"):
+            e = "range(%d, %d, %d)" % (a, b, s)
+            if form == "rev":
+                e = "reversed(%s)" % e
+            for tg, ctype, target in (("obj", None, "object"), ("inf", None, "infer"), ("int", "int", "c"), ("uint", "unsigned int", "c")):
+                if tg == "uint" and (a < 0 or b < 0):
+                    continue
+                out.append(_range_fn("k_%s_%s_%d" % (tg, form, idx), mode, ctype, [("bk", "I"), ("ck", "I")], e, CAPW, target))
+    # object target with run-time (object) bounds: generic iteration
+    for form in ("fwd", "rev"):
+        for s in STEPS:
+            e = "range(a, b, %d)" % s
+            if form == "rev":
+                e = "reversed(%s)" % e
+            out.append(_range_fn("ko_%s_%s" % (form, sname(s)), mode, None, [("a", "O"), ("b", "O"), ("bk", "I"), ("ck", "I")], e, CAPW, "object"))
+    return "\n".join(out)
+
+
+# ---- containers
+
+OPC = {"cont": 1, "brk": 2, "set": 3, "del": 4, "add": 5, "dis": 6, "app": 7, "pop": 8, "pop0": 9, "ins0": 10}
+
+_CONT_HEAD = '''# cython: language_level=3
+def mutate(c, p):
+    o = p[0]
+    if o == 3: c[p[1]] = p[2]
+    elif o == 4: del c[p[1]]
+    elif o == 5: c.add(p[1])
+    elif o == 6: c.discard(p[1])
+    elif o == 7: c.append(p[1])
+    elif o == 8: c.pop()
+    elif o == 9: del c[0]
+    elif o == 10: c.insert(0, p[1])
+'''
+
+_CONT_TMPL = '''def %(name)s(%(args)s):
+%(decl)s    out = []
+    els = False
+    j = 0
+    try:
+        for %(target)s in %(iter)s:
+            ops = script[j] if j < len(script) else ()
+            j += 1
+            if j > 40: raise BufferError()
+            if ops and ops[0][0] == 1: continue
+            out.append(%(log)s)
+            if ops and ops[0][0] == 2: break
+            for p in ops: mutate(c, p)
+        else:
+            els = True
+    except RuntimeError:
+        return (out, 'E:RuntimeError')
+    return (out, %(log)s, els)
+'''
+
+# name: (spec kind, container class, C type of the parameter ('' = untyped), iter expression, target, log expression,
+#        C declarations, P declarations, item view, path)
+#   item view: how a spec item (dict: [k, v]; others: i) shows up in the log
+#   path: 'pydict_next' (optimised dict loop over PyDict_Next), 'generic' (the container's own iterator), 'opt' (other optimised loop)
+_X = "    x = 99\n"
+_KV = "    k = 99\n    v = 99\n"
+CONT_VARIANTS = {
+    "d_t_direct": ("dict", "dict", "dict", "c", "x", "x", _X, _X, "k", "pydict_next"),
+    "d_t_keys": ("dict", "dict", "dict", "c.keys()", "x", "x", _X, _X, "k", "pydict_next"),
+    "d_t_values": ("dict", "dict", "dict", "c.values()", "x", "x", _X, _X, "v", "pydict_next"),
+    "d_t_items2": ("dict", "dict", "dict", "c.items()", "k, v", "(k, v)", _KV, _KV, "kv", "pydict_next"),
+    "d_t_items1": ("dict", "dict", "dict", "c.items()", "x", "x", _X, _X, "kv1", "pydict_next"),
+    "d_t_enum": ("dict", "dict", "dict", "enumerate(c, 7)", "k, v", "(k, v)", _KV, _KV, "ek", "pydict_next"),
+    "d_u_direct": ("dict", "dict", "", "c", "x", "x", _X, _X, "k", "generic"),
+    "d_u_keys": ("dict", "dict", "", "c.keys()", "x", "x", _X, _X, "k", "pydict_next"),
+    "d_u_values": ("dict", "dict", "", "c.values()", "x", "x", _X, _X, "v", "pydict_next"),
+    "d_u_items2": ("dict", "dict", "", "c.items()", "k, v", "(k, v)", _KV, _KV, "kv", "pydict_next"),
+    "d_s_keys": ("dict", "DSub", "", "c.keys()", "x", "x", _X, _X, "k", "generic"),
+    "d_s_items2": ("dict", "DSub", "", "c.items()", "k, v", "(k, v)", _KV, _KV, "kv", "generic"),
+    "s_t": ("set", "set", "set", "c", "x", "x", _X, _X, "i", "opt"),
+    "s_t_enum": ("set", "set", "set", "enumerate(c, 7)", "k, v", "(k, v)", _KV, _KV, "ei", "opt"),
+    "s_u": ("set", "set", "", "c", "x", "x", _X, _X, "i", "generic"),
+    "s_sub": ("set", "SSub", "", "c", "x", "x", _X, _X, "i", "generic"),
+    "s_fz": ("set", "frozenset", "frozenset", "c", "x", "x", _X, _X, "i", "opt"),
+    "l_t": ("list", "list", "list", "c", "x", "x", _X, _X, "i", "opt"),
+    "l_u": ("list", "list", "", "c", "x", "x", _X, _X, "i", "opt"),
+    "l_t_enum": ("list", "list", "list", "enumerate(c, 7)", "k, v", "(k, v)", _KV, _KV, "ei", "opt"),
+    "l_t_enumc": ("list", "list", "list", "enumerate(c, 7)", "k, v", "(k, v)", "    cdef int k = 99\n    v = 99\n", _KV, "ei", "opt"),
+    "rl_t": ("rlist", "list", "list", "reversed(c)", "x", "x", _X, _X, "i", "opt"),
+    "rl_u": ("rlist", "list", "", "reversed(c)", "x", "x", _X, _X, "i", "generic"),
+    "t_t": ("list", "tuple", "tuple", "c", "x", "x", _X, _X, "i", "opt"),
+    "rt_t": ("rlist", "tuple", "tuple", "reversed(c)", "x", "x", _X, _X, "i", "opt"),
+    "ba_t": ("list", "bytearray", "bytearray", "c", "x", "x", _X, _X, "i", "opt"),
+    "rba_t": ("rlist", "bytearray", "bytearray", "reversed(c)", "x", "x", _X, _X, "i", "opt"),
+    "st_t": ("list", "str", "str", "c", "x", "x", _X, _X, "ch", "opt"),
+    "st_t_ucs4": ("list", "str", "str", "c", "x", "x", "    cdef Py_UCS4 x = 99\n", "    x = 'c'\n", "ch", "opt"),
+    "st_t_rev": ("rlist", "str", "str", "reversed(c)", "x", "x", _X, _X, "ch", "opt"),
+    "st_t_enum": ("list", "str", "str", "enumerate(c)", "k, v", "(k, v)", _KV, _KV, "ech", "opt"),
+    "st_u": ("list", "str", "", "c", "x", "x", _X, _X, "ch", "generic"),
+    "by_t_int": ("list", "bytes", "bytes", "c", "x", "x", "    cdef int x = 99\n", _X, "by", "opt"),
+    "by_t_uchar": ("list", "bytes", "bytes", "c", "x", "x", "    cdef unsigned char x = 99\n", _X, "by", "opt"),
+    "by_t_obj": ("list", "bytes", "bytes", "c", "x", "x", _X, _X, "by", "generic"),
+    "by_t_rev": ("rlist", "bytes", "bytes", "reversed(c)", "x", "x", "    cdef unsigned char x = 99\n", _X, "by", "opt"),
+    "by_t_revint": ("rlist", "bytes", "bytes", "reversed(c)", "x", "x", "    cdef int x = 99\n", _X, "by", "opt"),
+}
+# C arrays: (spec kind, slice as Python text, indices visited, needs n)
+_CA = "    cdef int[5] arr\n    cdef int x = 99\n    arr = c\n"
+_PA = "    arr = list(c)\n    x = 99\n"
+CARRAY_VARIANTS = {
+    "ca_full": ("list", "arr", [0, 1, 2, 3, 4]),
+    "ca_rev": ("rlist", "reversed(arr)", [0, 1, 2, 3, 4]),
+    "ca_s14": ("list", "arr[1:4]", [1, 2, 3]),
+    "ca_s22": ("list", "arr[2:2]", []),
+    "ca_st2": ("list", "arr[:5:2]", [0, 2, 4]),
+    "ca_sn2": ("list", "arr[4:0:-2]", [4, 2]),
+    "ca_sn1": ("list", "arr[4::-1]", [4, 3, 2, 1, 0]),
+}
+STR_ITEMS = "aé€\U0001F600z"
+BYTES_ITEMS = [65, 200, 128, 255, 0]
+CARR_VALS = [11, -22, 33, 44, -55]
+
+
+def cont_module(mode):
+    out = [_CONT_HEAD]
+    for name, (kind, cls, ctype, it, target, log, cdecl, pdecl, view, path) in CONT_VARIANTS.items():
+        args = (("%s c, script" % ctype) if ctype else "c, script") if mode == "c" else "c, script"
+        out.append(_CONT_TMPL % {"name": name, "args": args, "decl": cdecl if mode == "c" else pdecl,
+                                 "target": target, "iter": it, "log": log})
+    for name, (kind, it, idxs) in CARRAY_VARIANTS.items():
+        out.append(_CONT_TMPL % {"name": name, "args": "c, script", "decl": _CA if mode == "c" else _PA,
+                                 "target": "x", "iter": it, "log": "x"})
+    return "\n".join(out)
+
+
+# --------------------------------------------------------------------------
+# (3) replay driver (child process; the same script runs the compiled module and the plain one)
+
+_DRIVER = r'''
+import json, sys, os, importlib
+moddir, modname, infile, outfile, start, want_ext = sys.argv[1], sys.argv[2], sys.argv[3], sys.argv[4], int(sys.argv[5]), sys.argv[6] == "1"
+sys.path.insert(0, moddir)
+mod = importlib.import_module(modname)
+if want_ext != mod.__file__.endswith(".so"):
+    print("@@" + json.dumps({"fatal": "wrong kind of module: %s" % mod.__file__})); sys.exit(3)
+class DSub(dict): pass
+class SSub(set): pass
+def build(x):
+    if isinstance(x, dict):
+        (t, v), = x.items()
+        if t in ("dict", "DSub"):
+            c = {} if t == "dict" else DSub()
+            for k, val in v: c[k] = val
+            return c
+        if t in ("set", "SSub"):
+            c = set() if t == "set" else SSub()
+            for k in v: c.add(k)
+            return c
+        if t == "frozenset":
+            c = set()
+            for k in v: c.add(k)
+            return frozenset(c)
+        if t == "list": return list(v)
+        if t == "tuple": return tuple(v)
+        if t == "bytes": return bytes(v)
+        if t == "bytearray": return bytearray(v)
+        raise ValueError(x)
+    return x
+def enc(v):
+    if isinstance(v, (tuple, list)): return [enc(x) for x in v]
+    if isinstance(v, bytes): return {"b": list(v)}
+    return v
+calls = json.load(open(infile))
+out = open(outfile, "a")
+buf = []
+for i in range(start, len(calls)):
+    fn, args = calls[i]
+    if len(buf) >= 400:
+        out.write("".join(buf)); out.flush(); buf = []
+    try:
+        r = enc(getattr(mod, fn)(*[build(a) for a in args]))
+    except BaseException as e:
+        r = "E:" + type(e).__name__
+    buf.append(json.dumps([i, r]) + "\n")
+out.write("".join(buf)); out.flush(); out.close()
+print("@@" + json.dumps({"done": len(calls)}))
+'''
+
+
+def run_table(moddir, modname, calls, is_ext, tag, timeout=900):
+    """calls: [[function, [args]], ...] -> observations (JSON values, 'E:<Type>', 'CRASH:<sig>', 'TIMEOUT')."""
+    inf = os.path.join(moddir, tag + "_in.json")
+    outf = os.path.join(moddir, tag + "_out.ndjson")
+    with open(inf, "w") as f:
+        json.dump(calls, f)
+    if os.path.exists(outf):
+        os.unlink(outf)
+    obs = [None] * len(calls)
+    start = 0
+    crashes = 0
+    while start < len(calls):
+        ch = core.run_child(_DRIVER, [moddir, modname, inf, outf, str(start), "1" if is_ext else "0"], timeout=timeout)
+        if os.path.exists(outf):
+            with open(outf) as f:
+                for line in f:
+                    try:
+                        i, r = json.loads(line)
+                    except ValueError:
+                        continue
+                    obs[i] = r
+        fatal = [j for j in ch.json_lines() if "fatal" in j]
+        if fatal:
+            core.die("driver: %s" % fatal[0]["fatal"])
+        if ch.rc == 0 and ch.json_lines():
+            break
+        nxt = start
+        while nxt < len(calls) and obs[nxt] is not None:
+            nxt += 1
+        if nxt >= len(calls):
+            break
+        obs[nxt] = "TIMEOUT" if ch.timed_out else ("CRASH:%d" % ch.signal if ch.crashed else "CRASH:exit%s:%s" % (ch.rc, ch.err[-300:]))
+        crashes += 1
+        if crashes > 100:
+            core.die("too many crashes in run_table")
+        start = nxt + 1
+    return obs
